@@ -54,14 +54,13 @@ fn brute_force(f: fn(char) -> bool) -> Vec<(u32, u32)> {
     out
 }
 
-fn split_at_gap(ranges: &[(u32, u32)]) -> Vec<(u32, u32)> {
-    let mut out = vec![];
+/// U+D7FF and U+E000 are consecutive scalar values: a run across the surrogate gap is one range.
+fn merge_at_gap(ranges: &[(u32, u32)]) -> Vec<(u32, u32)> {
+    let mut out: Vec<(u32, u32)> = vec![];
     for (lo, hi) in ranges.iter().copied() {
-        if lo <= 0xD7FF && hi >= 0xE000 {
-            out.push((lo, 0xD7FF));
-            out.push((0xE000, hi));
-        } else {
-            out.push((lo, hi));
+        match out.last_mut() {
+            Some((_, e)) if *e == 0xD7FF && lo == 0xE000 => *e = hi,
+            _ => out.push((lo, hi)),
         }
     }
     out
@@ -97,7 +96,7 @@ fn main() {
                 out,
                 "{}",
                 json!({"name": name, "n_ranges": ranges.len(), "n_expected": expected.len(),
-                       "equal_split": split_at_gap(&ranges) == expected,
+                       "equal_split": ranges == merge_at_gap(&expected),
                        "scalar_ends": ranges.iter().all(|(a, b)| char::from_u32(*a).is_some() && char::from_u32(*b).is_some()),
                        "first_diff": ranges.iter().zip(expected.iter()).position(|(a, b)| a != b),
                        "ranges_head": &ranges[..ranges.len().min(3)],
